@@ -263,6 +263,28 @@ func (ck *Check) addedTaint(rule string, us *updSite) {
 			why = append(why, "not exactly one taint appended")
 		} else {
 			lit = ctx.Term(el[0])
+			// the taint may be built by a constructor: read its returned value with the arguments bound
+			if c, isCall := el[0].(*ssa.Call); isCall && lit.Kind != "struct" {
+				if h := c.Common().StaticCallee(); h != nil && ck.P.inRepo(h) && h.Blocks != nil && !infoOf(h).hasLoop && h.Signature.Results().Len() == 1 {
+					args := make([]*Term, len(c.Common().Args))
+					for i, av := range c.Common().Args {
+						args[i] = ctx.Term(av)
+					}
+					ch := ctx.child(h, c, args)
+					ch.depth = 0
+					var got *Term
+					nret := 0
+					for _, hb := range h.Blocks {
+						if r, ok := hb.Instrs[len(hb.Instrs)-1].(*ssa.Return); ok {
+							nret++
+							got = ch.Term(r.Results[0])
+						}
+					}
+					if nret == 1 && got != nil && got.Kind == "struct" {
+						lit = got
+					}
+				}
+			}
 		}
 	} else {
 		why = append(why, "Spec.Taints is not assigned an append")
@@ -338,6 +360,46 @@ func (ck *Check) addedTaint(rule string, us *updSite) {
 					}
 				case et.Key() == paramTerm(prm).Key():
 					if imp, _, err := ctx.EntailsLinear(ec, []LinFact{{A: one, B: ln, K: 0, Text: "1 ≤ len(effect)"}}); err != nil || !imp {
+						okE = false
+					}
+				default:
+					okE = false
+					whyE = "unexpected effect value " + et.String()
+				}
+			}
+		}
+	}
+	if !okE && e != nil && e.Kind == "memphi" {
+		// a field assigned in two steps (literal, then a conditional overwrite): decided over the
+		// values that reach the merge, each under the condition of its edge
+		var prm *ssa.Parameter
+		for _, p := range fn.Params {
+			if strings.HasSuffix(typeName(p.Type()), "TaintEffect") {
+				prm = p
+			}
+		}
+		gs, ts := memCases(e, 0)
+		if prm != nil && len(ts) >= 2 && e.C != nil {
+			okE = true
+			ln := lenOf("len", paramTerm(prm))
+			zero, one := zeroTerm(types.Typ[types.Int]), intConstTermTyped(1, types.Typ[types.Int])
+			// the path conditions of the two ways into the merge differ in the deciding test only
+			for i, et := range ts {
+				rel := gs[i]
+				switch {
+				case et.Kind == "const" && et.Name == `"NoSchedule"`:
+					if imp, _, err := e.C.EntailsLinear(rel, []LinFact{{A: ln, B: zero, K: 0, Text: "len(effect) ≤ 0"}}); err != nil || !imp {
+						okE = false
+					}
+				case et.Key() == paramTerm(prm).Key():
+					// the parameter's value is kept on the path where it is not overwritten
+					other := FFalse
+					for j := range ts {
+						if j != i {
+							other = Or(other, gs[j])
+						}
+					}
+					if imp, _, err := e.C.EntailsLinear(And(rel, Not(other)), []LinFact{{A: one, B: ln, K: 0, Text: "1 ≤ len(effect)"}}); err != nil || !imp {
 						okE = false
 					}
 				default:
@@ -735,6 +797,22 @@ func (ck *Check) existsPredicate(rule string, fn *ssa.Function, listField, field
 				}
 				okv = false
 				why = append(why, "the search can stop early without a match")
+			}
+		}
+	}
+	if !okv && len(fn.Params) == 1 {
+		// however the search is written (helper, slices.ContainsFunc, …): its quantified reading
+		x := paramTerm(fn.Params[0])
+		if got, ok := ck.qResult(ck.P.NewCtx(fn), fn, 0); ok {
+			for _, path := range [][]string{{"ObjectMeta", listField}, {listField}} {
+				list := ck.nodeField(x, path...)
+				if list.Kind == "opaque" {
+					continue
+				}
+				want := mkExists(list, cmpFormula(token.EQL, ck.nodeField(boundElem(list), fieldName), &Term{Kind: "const", Name: lit}))
+				if eq, _, _ := Equivalent(got, want); eq {
+					okv, why = true, nil
+				}
 			}
 		}
 	}
